@@ -201,7 +201,12 @@ impl ScriptProc {
                     Act::Cancel(name) => ctx.cancel_timer(name),
                     Act::Clock(tip) => {
                         let t = ctx.time();
-                        ctx.send_local(Message::new(tip.clone(), format!("{:016x}", t.to_bits())))
+                        if self.script.borrow().canon {
+                            // twin of the Python process: its payloads are JSON texts
+                            ctx.send_local(Message::new(tip.clone(), format!("\"{:016x}\"", t.to_bits())))
+                        } else {
+                            ctx.send_local(Message::new(tip.clone(), format!("{:016x}", t.to_bits())))
+                        }
                     }
                     Act::Rand(tip) => {
                         let r = ctx.rand();
